@@ -1,5 +1,5 @@
 import os, sys
 sys.path.insert(0, os.path.dirname(os.path.dirname(os.path.abspath(__file__))))
-from loopfam import drv, RULE, TRUSTED, ASSUME
+from loopfam import drv, RULE, TRUSTED, ASSUME, GENS
 
-PROP = dict(drivers=[drv("stream"), drv("client", n=40), drv("multi", n=30), drv("stream", n=40, tags="verif poll_opt")], sites=['^loop-stuck$', '^outbound-', '^engine-start$', '^harness$'], rule=RULE, trusted=TRUSTED, assumptions=ASSUME)
+PROP = dict(gens=GENS, drivers=[drv("stream"), drv("client", n=40), drv("multi", n=30), drv("stream", n=40, tags="verif poll_opt")], sites=['^loop-stuck$', '^outbound-', '^engine-start$', '^harness$'], rule=RULE, trusted=TRUSTED, assumptions=ASSUME)
